@@ -3,7 +3,7 @@ from .api import api_queries, api_query, SCALE
 from .methods import METHODS, BY_NAME, method_query
 
 BUILD_ARGS = {"scale": None}
-QUICK_METHODS = ["md5crypt", "nt", "bigcrypt", "descrypt", "bsdicrypt", "sunmd5"]
+QUICK_METHODS = ["md5crypt", "nt", "bigcrypt", "descrypt", "bsdicrypt", "sunmd5", "bcrypt", "bcrypt_x", "yescrypt", "scrypt"]
 THOROUGH_METHODS = QUICK_METHODS + ["sunmd5-comma", "sunmd5-rounds", "sunmd5-comma-rounds", "sha256crypt", "sha256crypt-rounds", "sha512crypt", "sha512crypt-rounds", "sha1crypt"]
 META = {
     "level": "other",
@@ -12,7 +12,7 @@ META = {
     "bounds": {"quick": {"setting tail": "per method 8..40 symbolic bytes after the fixed prefix", "phrase": "<= 16 (bigcrypt 20) symbolic bytes", "stretch loops": "3 iterations then abstracted"},
                "thorough": {"setting tail": "same + overlong settings up to 420 (sha1crypt, sunmd5)", "phrase": "<= 24", "stretch loops": "8 iterations"}},
     "outside": ["memory safety inside the digest/cipher kernels with symbolic data (C16/C17 cover Update/Final framing and DES)",
-                "bcrypt, yescrypt, scrypt, gost-yescrypt method bodies (see DESIGN.md: BF_crypt has no kernel boundary; yescrypt decode path is checked in C10)",
+                "bcrypt: the wrappers crypt_bcrypt*_rn / BF_full_crypt (self-test logic, final copy) are real, BF_crypt itself is a contract stub (models/bf_stub.c); yescrypt, scrypt, gost-yescrypt method bodies are not encoded",
                 "settings longer than the stated bounds; stretch-loop iterations beyond K"],
     "assumptions": ["setting passed to a method contains no byte rejected by check_badsalt_chars (do_crypt establishes it: C05)",
                     "havoc digest models (models/digest_havoc.c): arbitrary digest bytes, context zeroed on Final"],
